@@ -97,23 +97,29 @@ theorem C07_all_told (c : Client) (h : c.srvOpen = true) :
 
 /-- **C07 (idle keep-alive connections are closed; connections still sniffing are closed).** -/
 theorem C07_idle_closed (c : Client) (ho : c.srvOpen = true) (h2 : c.h2 = false)
-    (hidle : c.sniffing = true ∨ (c.inHandler = false ∧ c.halfHead = false)) (hst : c.st = .opened) :
+    (hidle : c.sniffing = true ∨ (c.inHandler = false ∧ (c.halfHead = false ∨ c.hc ≠ 0))) (hst : c.st = .opened) :
     (gracefulConn c).eof = true ∧ (gracefulConn c).srvOpen = false ∧ (gracefulConn c).hc = c.hc := by
   unfold gracefulConn
   simp only [ho, h2, Bool.not_true, Bool.false_eq_true, ↓reduceIte]
   rcases hidle with hs | ⟨h1, h3⟩
   · simp [hs, closeServerSide, hst]
-  · cases hs : c.sniffing <;> simp [h1, h3, closeServerSide, hst]
+  · have hne : ¬ (c.halfHead = true ∧ c.hc = 0) := by
+      rintro ⟨a, b⟩
+      rcases h3 with h3 | h3
+      · rw [a] at h3; cases h3
+      · exact h3 b
+    cases hs : c.sniffing <;> simp [h1, hne, closeServerSide, hst]
 
 /-- **C07 (an in-flight exchange is finished, then the connection closes).** A request the server has
-    started to handle – even if only part of its head had arrived when the signal came – is not cut:
+    started to handle – a running handler, or the connection's first request of which only part of
+    the head had arrived when the signal came – is not cut:
     the connection stays, and when the handler is released the client receives the complete
     response, after which the connection is closed. -/
 theorem C07_inflight_kept (c : Client) (ho : c.srvOpen = true) (h2 : c.h2 = false) (hs : c.sniffing = false)
-    (hb : c.inHandler = true ∨ c.halfHead = true) :
+    (hb : c.inHandler = true ∨ (c.halfHead = true ∧ c.hc = 0)) :
     gracefulConn c = { c with graceful := true } := by
   unfold gracefulConn
-  rcases hb with h | h <;> simp [ho, h2, hs, h]
+  rcases hb with h | ⟨h, h0⟩ <;> simp [ho, h2, hs, h, *]
 
 theorem C07_inflight_completes (s : St) (i : Nat) (hi : i < s.clients.length)
     (hh : (getClient s i).inHandler = true) (hg : (getClient s i).graceful = true)
